@@ -121,6 +121,7 @@ struct Shared {
     std::atomic<uint64_t> tasks_done;
     std::atomic<uint64_t> nsamples;
     std::atomic<uint64_t> harness_errors;
+    std::atomic<uint64_t> ignored_semantic;
     char samples[NSAMPLES][512];
     char known_lines[8][512];
     std::atomic<uint64_t> known_kinds;
@@ -188,6 +189,7 @@ struct Run {
         memset((void *) sh, 0, sizeof(Shared));
         t0 = now_s();
         deadline_abs = t0 + opt.deadline_s;
+        memory_only = opt.property == "C17";
         setvbuf(stdout, nullptr, _IONBF, 0);
         g_run = this;
         std::string k = read_file(opt.known_file);
@@ -248,7 +250,14 @@ struct Run {
 
     // A failure of the property on `case_str`. `predicate` (may be empty) names a known-finding predicate that the engine
     // has evaluated to TRUE on this very case; the failure is then a KNOWN-FINDING if the committed file lists it.
+    // C17 runs the other engines' corpora under AddressSanitizer; there only memory errors and fatal signals count, a wrong answer
+    // belongs to the property that owns the corpus.
+    bool memory_only = false;
+    static bool is_memory_report(const std::string &what) {
+        return what.rfind("AddressSanitizer", 0) == 0 || what.rfind("fatal signal", 0) == 0 || what.rfind("worker exited", 0) == 0;
+    }
     void violation(const std::string &case_str, const std::string &what, const std::string &predicate = "") {
+        if (memory_only && !is_memory_report(what)) { sh->ignored_semantic.fetch_add(1); return; }
         if (!predicate.empty() && is_known(predicate)) {
             sh->known.fetch_add(1);
             auto k = sh->known_kinds.load();
@@ -362,7 +371,7 @@ struct Run {
             if (first) fprintf(f, "\"(none)\"");
             fprintf(f, "]\n },\n \"assumptions\": [");
             for (size_t i = 0; i < e.assumptions.size(); ++i) fprintf(f, "%s\"%s\"", i ? ", " : "", json_escape(e.assumptions[i]).c_str());
-            fprintf(f, "],\n \"wall_s\": %.2f,\n \"violations\": %" PRIu64 ",\n \"known_finding_hits\": %" PRIu64 ",\n \"harness_errors\": %" PRIu64 "\n}\n", wall, viol, known, herr);
+            fprintf(f, "],\n \"wall_s\": %.2f,\n \"violations\": %" PRIu64 ",\n \"known_finding_hits\": %" PRIu64 ",\n \"harness_errors\": %" PRIu64 ",\n \"semantic_mismatches_ignored_in_memory_only_mode\": %" PRIu64 "\n}\n", wall, viol, known, herr, sh->ignored_semantic.load());
             fclose(f);
             rename((path + ".tmp").c_str(), path.c_str());
         }
